@@ -106,6 +106,7 @@ func Build(s Spec, mons ...vnet.Monitor) *Built {
 	hooks := &vnet.Hooks{}
 	adv := false
 	rejecting := false
+	watchRejects := false
 	initTx := 0
 	switch s.Profile {
 	case "sync-perm":
@@ -205,7 +206,15 @@ func Build(s Spec, mons ...vnet.Monitor) *Built {
 		cfg.K.NotifyAll = true
 		cfg.K.PNewTx = 0.02
 		cfg.WatchFlag = make([]bool, cfg.N+cfg.Watchers)
-		cfg.WatchFlag[r.Intn(cfg.N)] = true
+		if cfg.Watchers > 0 && r.Intn(2) == 0 {
+			// hot standby: an extra node runs watch-only with the key of an active validator and
+			// therefore sees payloads bearing its own index
+			cfg.WatchFlag[cfg.N] = true
+			cfg.KeyOf = map[int]int{cfg.N: r.Intn(cfg.N)}
+		} else {
+			cfg.WatchFlag[r.Intn(cfg.N)] = true
+		}
+		watchRejects = r.Intn(2) == 0
 		if r.Intn(2) == 0 {
 			cfg.LatMin, cfg.LatMax = cfg.TPB/100, cfg.TPB/100
 		}
@@ -297,9 +306,41 @@ func Build(s Spec, mons ...vnet.Monitor) *Built {
 	if adv {
 		a := vnet.NewAdversary(c)
 		a.Withhold = []float64{0, 0.1, 0.5}[r.Intn(3)]
+		if r.Intn(3) == 0 {
+			// payload-level policy: a quarter of the adversary-made payloads are invalid by policy on every node
+			for _, n := range c.Nodes {
+				n.RejectForgedBelow = 64
+			}
+		}
+		if r.Intn(3) == 0 {
+			// payload-level policy of some honest nodes rejects whatever a Byzantine validator sends
+			for _, n := range c.Nodes {
+				if n.Role == vnet.Honest && r.Intn(2) == 0 {
+					for _, b := range a.Byz {
+						n.RejectFrom[uint16(b.ID)] = true
+					}
+				}
+			}
+		}
 	}
 	for i := 0; i < initTx; i++ {
 		c.AddTx(false, cfg.K.PTxMissing)
+	}
+	if watchRejects {
+		// the watch-only node's own verification callbacks reject some blocks / some senders
+		for _, n := range c.Nodes {
+			if !n.Watch {
+				continue
+			}
+			for h := 1; h <= cfg.Heights; h++ {
+				if r.Intn(2) == 0 {
+					n.RejectBlocks[[2]uint32{cfg.BaseHeight + uint32(h), 0}] = true
+				}
+			}
+			if r.Intn(2) == 0 {
+				n.RejectFrom[uint16(r.Intn(cfg.N))] = true
+			}
+		}
 	}
 	if rejecting {
 		// some verifiers reject the completed block of some (height, view 0)
